@@ -10,7 +10,7 @@ import BigtreeModel.RenderStyles
 * `op=dot (T|B)` → `V id:label,… E from>to,…` (both sorted)
 * `op=mermaid md=<n> start=<i> nnp=<xhex> (T|B)` → `hex(flow line),…` (`-` when there is none)
 * `op=s2t prefixes=-|x:x text=<xhex>` → shape or `rej`
-* `op=rt style=<S> md=<n> (T|B)` → shape of `strToTree [branch, stem_final] (text of yieldTree)` or `rej`
+* `op=rt style=<S> md=<n> [np=1] (T|B)` → shape of `strToTree [branch, stem_final] (text of yieldTree)` (`np=1`: no prefix list) or `rej`
 * `op=hdec hstyle=<H> inter=0|1 md=<n> (T|B)` → shape decoded (by the Lean decoder) from the model's own
   horizontal rendering (a test of decodability, see LEVEL_TEXT)
 
@@ -191,7 +191,8 @@ def handle (toks : List String) : String :=
       let md ← (← kv toks "md").toNat?
       match ← parseStyle (← kv toks "style") with
       | some st =>
-        match strToTree [st.branch, st.stemFinal] (joinNl ((yieldTree st md t).map Line.text)) with
+        let prefixes := if (kv toks "np").getD "0" == "1" then [] else [st.branch, st.stemFinal]
+        match strToTree prefixes (joinNl ((yieldTree st md t).map Line.text)) with
         | some t' => pure (showShape t')
         | none => pure "rej"
       | none => pure "rej"
